@@ -526,6 +526,18 @@ def jobs(tier):
         out.append(dict(func="two_nodes", params=dict(discipline=d)))
     for k in (2, 3):
         out.append(dict(func="concurrent_send", params=dict(k=k), weight=3 ** k))
+    # client threads + dispatcher thread under the delay-bounded scheduler (default schedule + k deviations): k = 1 at
+    # every source line of canopen code, k = 2 (thorough: 3) at synchronisation points; thorough adds k = 2 at the
+    # lines of the functions that touch the shared response queue
+    hot = ["request_response", "read_response", "send_request", "on_response", "_write", "on_request", "notify"]
+    for stale in (0, 1):
+        out.append(dict(func="threaded_clients", params=dict(nclients=2, preempt=1, stale=stale), weight=2000))
+        out.append(dict(func="threaded_clients", params=dict(nclients=2, preempt=2, stale=stale, lines=False), weight=300))
+        out.append(dict(func="threaded_clients", params=dict(nclients=1, preempt=1, stale=stale), weight=300))
+        if not q:
+            out.append(dict(func="threaded_clients", params=dict(nclients=2, preempt=3, stale=stale, lines=False), weight=3000))
+            out.append(dict(func="threaded_clients", params=dict(nclients=2, preempt=2, stale=stale, only=hot), weight=50000,
+                            limits=dict(job_timeout_s=3000, max_paths=400000)))
     for d in disciplines:
         out.append(dict(func="after_failed_write", params=dict(discipline=d), weight=3))
     out.append(dict(func="shared_dictionary", params={}))
@@ -556,19 +568,22 @@ META = dict(
                "joined by a loopback. One symbolic value per data type covers its whole range; delivery inline, deferred "
                "until the client waits (the other thread at message granularity), and interleaved with symbolic unrelated "
                "frames and with SDO responses for a second remote node.",
-    level_note="OS-thread preemption (python-can's notifier thread, several client threads racing on one client's queue "
-               "swap) is not encodable: schedules are modelled at message / wake-up granularity only.",
+    level_note="Threads: a dispatcher thread and one client thread per node run as real OS threads under a deterministic "
+               "scheduler; explored are the default (round-robin, non-preemptive) schedule plus every placement of up to k "
+               "deviations (delay bounding): k=1 at every source line of canopen code executed by any thread, k=2 (thorough 3) "
+               "at synchronisation points, thorough k=2 at the lines of the functions around the response queue. Preemption "
+               "inside a source line and more deviations are outside.",
     bounds=dict(quick="all 16 integer types over their full range, BOOLEAN, REAL32 (float32-representable) and REAL64 "
                       "(non-NaN), VISIBLE/UNICODE strings of length 0..6 (no trailing NUL, BMP without surrogates), "
                       "OCTET_STRING/DOMAIN of length 0..12; access by index, name, 'Record.Member', array member; three "
                       "delivery disciplines; two nodes; sibling members written after each other; every frame delivered in a "
                       "receive buffer that is overwritten once notify() has returned",
                 thorough="strings 0..12, byte strings 0..40 and 200"),
-    outside_bounds=["real OS threads pre-empted between synchronisation points (1..8 client threads on python-can's virtual bus); threads are explored at lock granularity only", "NaN payloads", "strings with trailing "
+    outside_bounds=["thread schedules with more than k deviations from the default schedule (k as stated), preemption between two bytecodes of one source line, more than 2 client threads, python-can's own virtual bus", "NaN payloads", "strings with trailing "
                     "NUL", "non-BMP text"],
     assumptions=["at most 2 noise injections per scenario; noise ids outside every predefined connection set"],
     stubs=["queue with delivery hook", "struct", "bytes", "io model", "logging", "Network.send_message replaced by the loopback"],
-    required_reach=["same-names", "concurrent-send", "after-failed", "shared-od", "slow", "empty-after-other", "numeric-inline", "numeric-deferred", "numeric-interleaved", "access-index", "access-name", "boolean",
+    required_reach=["threads", "same-names", "concurrent-send", "after-failed", "shared-od", "slow", "empty-after-other", "numeric-inline", "numeric-deferred", "numeric-interleaved", "access-index", "access-name", "boolean",
                     "real", "text", "blob", "domain-segmented", "record", "two-nodes", "stale-responses"],
     limits=dict(quick=dict(max_decisions=50000), thorough=dict(max_decisions=100000)),
     validate_every=dict(quick=7, thorough=50),
